@@ -1,5 +1,6 @@
 import Brax.Lemmas.C10
 import Brax.Lemmas.C10Mjx
+import Brax.Lemmas.C10Cap
 import Brax.Props.C09
 import Mathlib.Tactic.Ring
 import Mathlib.Tactic.Linarith
@@ -1079,5 +1080,126 @@ example : (∀ g ∈ scEx.geoms, g.quat.IsUnit ∧ (geomLink xEx g).rot.IsUnit)
     left
     simp [scEx]
   · simp [get, Mjx.collision, scEx, Mjx.pairRows]
+
+end Brax.C10
+
+/-! ## Part 4 — capsule–capsule: translator tie and an upper bound
+
+(second deepening; proofs in `Brax/Lemmas/C10Cap.lean`.)
+
+* `mjx_translator_tie_capsule_capsule`: the transcription of `capsule_capsule` **is** the function traced from
+  the installed library — all five kinds are now translator-tied.
+* `mjx_capsule_capsule_dist_within`: unit axes `u`, `v`, half-lengths `> 1e-8`, and the feet `(s⋆, t⋆)` of the
+  common perpendicular of the two axis *lines* on both axis segments (`|s⋆| ≤ h₁`, `|t⋆| ≤ h₂`; `g1`, `g2` are the
+  two stationarity equations that define the feet).  Then `d ≤ d_mjx ≤ d + capErr`, with
+  `capErr = 2·h₁·1e-6/(D + 1e-6) + 2h₂·1e-6/(4h₂² + 1e-6)`, `D = 1 − (u·v)²` (`sin²` of the angle between the axes);
+  for `D ≥ s₀`: `capErr ≤ 2e-6·h₁/s₀ + 1e-6/(2h₂)` (`mjx_capsule_capsule_dist_within_sin`).  The bound is first
+  order in the regulariser; it is attained in order of magnitude when the axes intersect (measured `9e-5`,
+  notes/C10-deepen.md).  `mjx_capsule_capsule_sqdist_within`: the *squared* centre distance exceeds the squared
+  distance of the feet by at most `capErr²` (second order — this is why generic pairs are within `1e-8`).
+* not covered: closest points at a segment end (clamped cases), nearly parallel axes (`D → 0` makes `capErr`
+  useless), degenerate capsules. -/
+namespace Brax.C10
+open Brax Spec
+
+/-- the transcription of `capsule_capsule` is the function traced from the installed library -/
+theorem mjx_translator_tie_capsule_capsule (s1 p1 : V3 ℝ) (m1 : M3 ℝ) (s2 p2 : V3 ℝ) (m2 : M3 ℝ) :
+    Mjx.pairRows 3 s1 (p1, m1) 3 s2 (p2, m2) = some (Gen.Mjx.capsuleCapsule s1 p1 m1 s2 p2 m2) :=
+  bridge_capsuleCapsule s1 p1 m1 s2 p2 m2
+
+/-- so the *real* traced `capsule_capsule` reports the exact sphere–sphere candidate of the balls at the two
+points of `closest_segment_to_segment_points` (outside the guard of `math.norm`) -/
+theorem real_capsule_capsule_rows (s1 p1 : V3 ℝ) (m1 : M3 ℝ) (s2 p2 : V3 ℝ) (m2 : M3 ℝ)
+    (h : ¬ Small
+      ((Mjx.closestSegmentToSegmentPoints (p1 - V3.smul s1.y m1.col2) (p1 + V3.smul s1.y m1.col2)
+          (p2 - V3.smul s2.y m2.col2) (p2 + V3.smul s2.y m2.col2)).2
+       - (Mjx.closestSegmentToSegmentPoints (p1 - V3.smul s1.y m1.col2) (p1 + V3.smul s1.y m1.col2)
+          (p2 - V3.smul s2.y m2.col2) (p2 + V3.smul s2.y m2.col2)).1)) :
+    Gen.Mjx.capsuleCapsule s1 p1 m1 s2 p2 m2
+      = [candRow (sphereSphere
+          (Mjx.closestSegmentToSegmentPoints (p1 - V3.smul s1.y m1.col2) (p1 + V3.smul s1.y m1.col2)
+            (p2 - V3.smul s2.y m2.col2) (p2 + V3.smul s2.y m2.col2)).1 s1.x
+          (Mjx.closestSegmentToSegmentPoints (p1 - V3.smul s1.y m1.col2) (p1 + V3.smul s1.y m1.col2)
+            (p2 - V3.smul s2.y m2.col2) (p2 + V3.smul s2.y m2.col2)).2 s2.x)] := by
+  have h' := mjx_capsule_capsule_rows s1 s2 (p1, m1) (p2, m2) h
+  rw [bridge_capsuleCapsule] at h'
+  exact Option.some.inj h'
+
+/-- **capsule – capsule, two-sided**: common perpendicular of the axes meeting both axis segments ⇒
+`d ≤ d_mjx ≤ d + capErr (1 − (u·v)²) h₁ h₂` -/
+theorem mjx_capsule_capsule_dist_within (c1 u : V3 ℝ) (h1 r1 : ℝ) (c2 v : V3 ℝ) (h2 r2 : ℝ)
+    (hu : V3.dot u u = 1) (hv : V3.dot v v = 1) (hh1 : 1e-8 < h1) (hh2 : 1e-8 < h2) (ss ts : ℝ)
+    (g1 : ss + V3.dot u (c1 - c2) - ts * V3.dot u v = 0)
+    (g2 : ts - V3.dot v (c1 - c2) - ss * V3.dot u v = 0)
+    (hs : |ss| ≤ h1) (ht : |ts| ≤ h2) :
+    let pq := Mjx.closestSegmentToSegmentPoints (c1 - V3.smul h1 u) (c1 + V3.smul h1 u)
+      (c2 - V3.smul h2 v) (c2 + V3.smul h2 v)
+    (capsuleCapsule c1 u h1 r1 c2 v h2 r2).dist ≤ (sphereSphere pq.1 r1 pq.2 r2).dist
+    ∧ (sphereSphere pq.1 r1 pq.2 r2).dist
+        ≤ (capsuleCapsule c1 u h1 r1 c2 v h2 r2).dist + capErr (1 - V3.dot u v * V3.dot u v) h1 h2 := by
+  intro pq
+  have h10 : (0 : ℝ) < h1 := lt_trans (by norm_num) hh1
+  have h20 : (0 : ℝ) < h2 := lt_trans (by norm_num) hh2
+  exact ⟨mjx_capsule_capsule_dist_ge c1 u h1 r1 c2 v h2 r2 (axis_seg_ne c1 u h1 hu h10)
+      (axis_seg_ne c2 v h2 hv h20),
+    (mjx_capsule_capsule_upper c1 u h1 r1 c2 v h2 r2 hu hv hh1 hh2 ss ts g1 g2 hs ht).1⟩
+
+/-- the same with the axes not nearly parallel: `1 − (u·v)² ≥ s₀ > 0` gives the explicit
+`d_mjx − d ≤ 2e-6·h₁/s₀ + 1e-6/(2h₂)` -/
+theorem mjx_capsule_capsule_dist_within_sin (c1 u : V3 ℝ) (h1 r1 : ℝ) (c2 v : V3 ℝ) (h2 r2 : ℝ)
+    (hu : V3.dot u u = 1) (hv : V3.dot v v = 1) (hh1 : 1e-8 < h1) (hh2 : 1e-8 < h2) (ss ts : ℝ)
+    (g1 : ss + V3.dot u (c1 - c2) - ts * V3.dot u v = 0)
+    (g2 : ts - V3.dot v (c1 - c2) - ss * V3.dot u v = 0)
+    (hs : |ss| ≤ h1) (ht : |ts| ≤ h2) (s0 : ℝ) (hs0 : 0 < s0) (hsin : s0 ≤ 1 - V3.dot u v * V3.dot u v) :
+    let pq := Mjx.closestSegmentToSegmentPoints (c1 - V3.smul h1 u) (c1 + V3.smul h1 u)
+      (c2 - V3.smul h2 v) (c2 + V3.smul h2 v)
+    (sphereSphere pq.1 r1 pq.2 r2).dist
+        ≤ (capsuleCapsule c1 u h1 r1 c2 v h2 r2).dist + (2 * (1e-6 / s0 * h1) + 1e-6 / (2 * h2)) := by
+  intro pq
+  have h10 : (0 : ℝ) < h1 := lt_trans (by norm_num) hh1
+  have h20 : (0 : ℝ) < h2 := lt_trans (by norm_num) hh2
+  have h := (mjx_capsule_capsule_upper c1 u h1 r1 c2 v h2 r2 hu hv hh1 hh2 ss ts g1 g2 hs ht).1
+  have hc := capErr_le _ s0 h1 h2 hs0 hsin h10.le h20
+  exact le_trans h (by linarith)
+
+/-- second order: the squared centre distance of the returned pair exceeds the squared distance of the feet
+of the common perpendicular (which is at most the squared distance of any two points of the segments) by at
+most `capErr²` -/
+theorem mjx_capsule_capsule_sqdist_within (c1 u c2 v : V3 ℝ) (h1 h2 : ℝ)
+    (hu : V3.dot u u = 1) (hv : V3.dot v v = 1) (hh1 : 1e-8 < h1) (hh2 : 1e-8 < h2) (ss ts : ℝ)
+    (g1 : ss + V3.dot u (c1 - c2) - ts * V3.dot u v = 0)
+    (g2 : ts - V3.dot v (c1 - c2) - ss * V3.dot u v = 0)
+    (hs : |ss| ≤ h1) (ht : |ts| ≤ h2) :
+    let pq := Mjx.closestSegmentToSegmentPoints (c1 - V3.smul h1 u) (c1 + V3.smul h1 u)
+      (c2 - V3.smul h2 v) (c2 + V3.smul h2 v)
+    let S := segSegClosest (c1 - V3.smul h1 u) (c1 + V3.smul h1 u) (c2 - V3.smul h2 v) (c2 + V3.smul h2 v)
+    V3.dot (pq.2 - pq.1) (pq.2 - pq.1)
+      ≤ V3.dot (S.2 - S.1) (S.2 - S.1) + capErr (1 - V3.dot u v * V3.dot u v) h1 h2 ^ 2 := by
+  intro pq S
+  have hU := mjx_segseg_upper c1 u c2 v h1 h2 hu hv hh1 hh2 ss ts g1 g2 hs ht
+  have hL := spec_sqdist_ge c1 u c2 v h1 h2 hu hv ss ts g1 g2
+  exact le_trans hU (by linarith)
+
+/-- non-vacuity: two perpendicular skew capsules (axes `e_x` through the origin and `e_y` through `(0,0,1)`,
+half-lengths 1) satisfy every hypothesis of `mjx_capsule_capsule_dist_within` with `s⋆ = t⋆ = 0`, `D = 1` -/
+example : V3.dot (⟨1, 0, 0⟩ : V3 ℝ) ⟨1, 0, 0⟩ = 1 ∧ V3.dot (⟨0, 1, 0⟩ : V3 ℝ) ⟨0, 1, 0⟩ = 1
+    ∧ (1e-8 : ℝ) < 1
+    ∧ (0 : ℝ) + V3.dot (⟨1, 0, 0⟩ : V3 ℝ) ((⟨0, 0, 0⟩ : V3 ℝ) - ⟨0, 0, 1⟩)
+        - 0 * V3.dot (⟨1, 0, 0⟩ : V3 ℝ) ⟨0, 1, 0⟩ = 0
+    ∧ (0 : ℝ) - V3.dot (⟨0, 1, 0⟩ : V3 ℝ) ((⟨0, 0, 0⟩ : V3 ℝ) - ⟨0, 0, 1⟩)
+        - 0 * V3.dot (⟨1, 0, 0⟩ : V3 ℝ) ⟨0, 1, 0⟩ = 0
+    ∧ |(0 : ℝ)| ≤ 1
+    ∧ (1 : ℝ) ≤ 1 - V3.dot (⟨1, 0, 0⟩ : V3 ℝ) ⟨0, 1, 0⟩ * V3.dot (⟨1, 0, 0⟩ : V3 ℝ) ⟨0, 1, 0⟩ := by
+  norm_num [V3.dot, V3.sub_def]
+
+/-- … and a tilted pair: axes `e_x` and `(3/5, 4/5, 0)` (so `D = 16/25`), offset `(0,0,1)`: feet at
+`s⋆ = t⋆ = 0` again -/
+example : V3.dot (⟨3/5, 4/5, 0⟩ : V3 ℝ) ⟨3/5, 4/5, 0⟩ = 1
+    ∧ (0 : ℝ) + V3.dot (⟨1, 0, 0⟩ : V3 ℝ) ((⟨0, 0, 0⟩ : V3 ℝ) - ⟨0, 0, 1⟩)
+        - 0 * V3.dot (⟨1, 0, 0⟩ : V3 ℝ) ⟨3/5, 4/5, 0⟩ = 0
+    ∧ (0 : ℝ) - V3.dot (⟨3/5, 4/5, 0⟩ : V3 ℝ) ((⟨0, 0, 0⟩ : V3 ℝ) - ⟨0, 0, 1⟩)
+        - 0 * V3.dot (⟨1, 0, 0⟩ : V3 ℝ) ⟨3/5, 4/5, 0⟩ = 0
+    ∧ (16/25 : ℝ) ≤ 1 - V3.dot (⟨1, 0, 0⟩ : V3 ℝ) ⟨3/5, 4/5, 0⟩ * V3.dot (⟨1, 0, 0⟩ : V3 ℝ) ⟨3/5, 4/5, 0⟩ := by
+  norm_num [V3.dot, V3.sub_def]
 
 end Brax.C10
